@@ -27,7 +27,7 @@ GSpec == GInit /\ [][GNext]_gvars
 View == vars
 
 FaultOf(j) == IF ppres[j] = "fail" THEN "pp" ELSE IF wres[j] = "fail" THEN "wr" ELSE "none"
-Case == [n |-> n, k |-> k, h |-> h, terminal |-> Terminal,
+Case == [n |-> n, k |-> k, withpp |-> hasPP, h |-> h, terminal |-> Terminal,
          ret |-> ret, got |-> got,
          fault |-> [j \in Jobs |-> FaultOf(j)],
          pp |-> [j \in Jobs |-> ppres[j]], wr |-> [j \in Jobs |-> wres[j]],
